@@ -3,6 +3,7 @@
 package checks
 
 import (
+	"time"
 	"fmt"
 	"math"
 	"math/big"
@@ -106,6 +107,9 @@ func gethRef(n *vn.Node, tx *ethtypes.Transaction, baseFee *big.Int, addrs []com
 		sl = logger.NewStructLogger(&logger.Config{DisableStorage: true, DisableStack: false})
 		vmcfg.Debug, vmcfg.Tracer = true, sl
 	}
+	if gethWatch != nil {
+		vmcfg.Debug, vmcfg.Tracer = true, gethWatch
+	}
 	evm := vm.NewEVM(bctx, core.NewEVMTxContext(msg), db, cfg, vmcfg)
 	res, err := core.ApplyMessage(evm, msg, new(core.GasPool).AddGas(math.MaxUint64>>1))
 	if sl != nil {
@@ -141,3 +145,57 @@ func gethRef(n *vn.Node, tx *ethtypes.Transaction, baseFee *big.Int, addrs []com
 	out.DB = db
 	return out
 }
+
+// watchTracer records the calls made to one address during the reference execution and whether
+// each of them survived, i.e. was made in a frame that returned normally and all of whose
+// ancestors returned normally.
+type watchTracer struct {
+	watch common.Address
+	stack [][]int // per open frame: indices (into calls) of watched calls made inside it or its finished children
+	calls []watchedCall
+}
+
+type watchedCall struct {
+	From     common.Address
+	Input    []byte
+	Survived bool
+}
+
+var gethWatch *watchTracer
+
+func (w *watchTracer) CaptureTxStart(uint64) {}
+func (w *watchTracer) CaptureTxEnd(uint64)   {}
+func (w *watchTracer) CaptureStart(_ *vm.EVM, _, _ common.Address, _ bool, _ []byte, _ uint64, _ *big.Int) {
+	w.stack = [][]int{{}}
+}
+func (w *watchTracer) CaptureEnd(_ []byte, _ uint64, _ time.Duration, err error) {
+	if len(w.stack) == 0 {
+		return
+	}
+	for _, i := range w.stack[0] {
+		w.calls[i].Survived = err == nil
+	}
+}
+func (w *watchTracer) CaptureEnter(_ vm.OpCode, from, to common.Address, input []byte, _ uint64, _ *big.Int) {
+	w.stack = append(w.stack, []int{})
+	if to == w.watch {
+		w.calls = append(w.calls, watchedCall{From: from, Input: append([]byte{}, input...)})
+		top := len(w.stack) - 1
+		w.stack[top] = append(w.stack[top], len(w.calls)-1)
+	}
+}
+func (w *watchTracer) CaptureExit(_ []byte, _ uint64, err error) {
+	if len(w.stack) < 2 {
+		return
+	}
+	top := w.stack[len(w.stack)-1]
+	w.stack = w.stack[:len(w.stack)-1]
+	if err == nil {
+		// the frame's calls now depend on the parent
+		w.stack[len(w.stack)-1] = append(w.stack[len(w.stack)-1], top...)
+	}
+	// on error everything recorded inside the frame stays "not survived"
+}
+func (w *watchTracer) CaptureState(uint64, vm.OpCode, uint64, uint64, *vm.ScopeContext, []byte, int, error) {
+}
+func (w *watchTracer) CaptureFault(uint64, vm.OpCode, uint64, uint64, *vm.ScopeContext, int, error) {}
